@@ -1426,6 +1426,9 @@ def rule_polarity(ctx: Ctx, key: str, flag: str, neg_when: bool, result_kind: st
             c = kw_of(lp, "c")
             s1 = _objective_sign(c) if c is not None else None
             construct = "%s(%s=%s): objective sign" % (short, flag, fv)
+            if s1 is None and mentions(c, lambda y: isinstance(y, tuple) and len(y) == 4 and y[0] == "bin" and y[1] in ("Div", "FloorDiv", "Pow", "Mod")):
+                ctx.violation(rule, key, construct, "the objective %s is not a signed copy of the coefficients (it divides / raises them)" % show(c, 4), where=fi.where)
+                continue
             if s1 is None:
                 ctx.cannot_decide(rule, key, construct, "objective %s is outside the sign fragment" % show(c, 4))
                 continue
@@ -1451,7 +1454,17 @@ def rule_polarity(ctx: Ctx, key: str, flag: str, neg_when: bool, result_kind: st
                         k = _coef_of(to_rat(e["value"]) - to_rat(("attr", e["target"][1], "constant")), _is_fun)
                         if k is not None:
                             s2 = -k
-            if s2 is None:
+            if s2 is None and result_kind == "constant-decrement" and not any(mentions(e.get("rhs", e.get("value")), _is_fun) for e in p.events if e["kind"] in ("augassign", "store")):
+                # nothing ever combines the optimum with a constant: fine only if the path hands back the untouched term
+                first = p.value[1][0] if isinstance(p.value, tuple) and p.value and p.value[0] == "tuple" and p.value[1] else p.value
+                untouched = first == ("mcall", "copy", ("param", fi.params[0]), (), ()) or (isinstance(first, tuple) and first[:3] == ("mcall", "copy", ("param", fi.params[0])))
+                if untouched or first == ("param", fi.params[0]):
+                    ctx.ok(rule, key, construct + " (the term is handed back unchanged)", nontrivial=False)
+                else:
+                    ctx.violation(rule, key, construct, "the LP optimum is computed but never enters the returned term (%s): the eliminated variables are dropped without accounting for their extreme value" % show(first, 3), where=fi.where)
+            elif s2 is None and result_kind == "return" and mentions(p.value, _is_fun) and mentions(p.value, lambda y: isinstance(y, tuple) and len(y) == 4 and y[0] == "bin" and y[1] in ("Div", "FloorDiv", "Pow", "Mod")):
+                ctx.violation(rule, key, construct, "the result %s is not the optimum with a sign (it divides by / raises it)" % show(p.value, 4), where=fi.where)
+            elif s2 is None:
                 ctx.cannot_decide(rule, key, construct, "could not find how res['fun'] enters the result")
             elif s2 == s1:
                 ctx.ok(rule, key, construct)
@@ -1539,7 +1552,10 @@ def rule_contains_behavior(ctx: Ctx, rule: str = "membership") -> None:
             args = list(ev[0]["args"]) + [x for _k, x in ev[0]["kws"]]
             if ev[0]["recv"] != ("param", "self") or args != [("param", "behavior")]:
                 ctx.violation(rule, key, "contains_behavior: evaluates self on the behaviour", "calls %s" % show(ev[0]["result"], 3), where=fi.where)
-    ctx.floor("contains_behavior guard instances", n_guard, 1)
+    if n_guard == 0 and ps:
+        ctx.violation(rule, key, "contains_behavior: variables without a value raise ValueError before any evaluation", "no path tests which variables of the list the behaviour leaves unassigned: a partly assigned behaviour is evaluated (and accepted) instead of being refused with ValueError", where=fi.where)
+    else:
+        ctx.floor("contains_behavior guard instances", n_guard, 1)
 
 
 def _strip_wrappers(v):
@@ -1602,6 +1618,11 @@ def rule_get_variable_bounds(ctx: Ctx, rule: str = "bounds-order") -> None:
             if not (obj is not None and obj[0] == "attr" and obj[2] == "variables" and mentions(obj, lambda x: x == ("param", "expr"))):
                 okc = False
                 why += " objective=%s" % show(obj, 4)
+            # the objective is the FIRST (only) term the parser returns for  "<expr> <= 0"
+            idx = [x[2] for x in walk(obj) if isinstance(x, tuple) and len(x) == 3 and x[0] == "sub" and is_const(x[2]) and isinstance(x[1], tuple) and x[1] and x[1][0] == "call" and str(x[1][1]).endswith("polyhedral_termlist_from_string")] if obj is not None else []
+            if idx and any(i_ != const(0) for i_ in idx):
+                okc = False
+                why += " the objective is read from term %s of a one-term parse" % [i_[1] for i_ in idx]
     (ctx.ok(rule, key, construct) if okc else ctx.violation(rule, key, construct, why or "unexpected shape", where=fi.where))
     # termlist-level: the objective row is built with constant 0 and optimised over self
     key = PTL + "optimize"
@@ -1618,6 +1639,13 @@ def rule_get_variable_bounds(ctx: Ctx, rule: str = "bounds-order") -> None:
         construct = "PolyhedralTermList.optimize: the LP is over self's matrix and bounds"
         okc = len(t2p) == 1 and t2p[0]["args"] and t2p[0]["args"][0] == ("param", "self") and _strip_wrappers(a_ub) == ("item", t2p[0]["result"], 1) and _strip_wrappers(b_ub) == ("item", t2p[0]["result"], 2)
         (ctx.ok(rule, key, construct) if okc else ctx.violation(rule, key, construct, "A_ub=%s b_ub=%s" % (show(a_ub, 3), show(b_ub, 3)), where=fi.where))
+        c_lp = kw_of(lp, "c")
+        rows_read = [x for x in walk(c_lp) if isinstance(x, tuple) and len(x) == 3 and x[0] == "sub" and isinstance(x[1], tuple) and x[1][:1] == ("item",) and len(x[1]) == 3 and x[1][2] == 3 and is_const(x[2])] if c_lp is not None else []
+        if rows_read and len(t2p) == 1:
+            construct = "PolyhedralTermList.optimize: the objective is the one row of the objective's matrix"
+            # the context handed to the conversion is a one-term list: its matrix has exactly row 0
+            idx = {x[2][1] for x in rows_read}
+            (ctx.ok(rule, key, construct) if idx == {0} else ctx.violation(rule, key, construct, "reads row %s of a one-row matrix (IndexError at run time)" % sorted(idx), where=fi.where))
         # the columns of the LP are the variables the conversion was shown: the objective has to be among what it is
         # shown, or a variable that only the objective mentions (unbounded in its direction) silently drops out
         construct = "PolyhedralTermList.optimize: every variable of the objective is a column of the LP"
@@ -2041,6 +2069,152 @@ def rule_reduce_loop_discipline(ctx: Ctx, rule: str = "reduce-loop") -> None:
         ctx.violation(rule, key, construct, verdict[1], where=fi.where)
     else:
         ctx.cannot_decide(rule, key, construct, verdict[1])
+
+
+def _any_negative(v, bname: str):
+    """Is the value `any(b < 0)` (through bool(), np.any / any, np.asarray / np.array)?  -> (True, "") when exactly
+    that, (False, why) when it is a comparison of the bounds with something else, (None, "") when of another shape."""
+    while isinstance(v, tuple) and v:
+        if v[0] == "call" and str(v[1]).split(".")[-1] in ("bool", "any") and len(v[2]) == 1:
+            v = v[2][0]
+        elif v[0] == "mcall" and v[1] == "any" and not v[3]:
+            v = v[2]  # (b < 0).any()
+        else:
+            break
+    if not (isinstance(v, tuple) and v and v[0] == "cmp"):
+        return (None, "")
+    op, l, r = v[1], v[2], v[3]
+
+    def is_b(x) -> bool:
+        x = _strip_wrappers(x)
+        return x == ("param", bname)
+
+    if is_b(l) and is_const(r):
+        if op == "Lt" and r[1] == 0:
+            return (True, "")
+        return (False, "tests b %s %r" % ({"Lt": "<", "LtE": "<=", "Gt": ">", "GtE": ">=", "Eq": "==", "NotEq": "!="}.get(op, op), r[1]))
+    if is_b(r) and is_const(l):
+        if op == "Gt" and l[1] == 0:
+            return (True, "")
+        return (False, "tests %r %s b" % (l[1], {"Lt": "<", "LtE": "<=", "Gt": ">", "GtE": ">=", "Eq": "==", "NotEq": "!="}.get(op, op)))
+    return (None, "")
+
+
+def rule_zero_column_exactness(ctx: Ctx, rule: str = "lp-zero-columns") -> None:
+    """C11/C03/C07: rows without any column read 0 <= b.  They are unsatisfiable exactly when some b < 0 (0 <= 0 holds)
+    and otherwise say nothing: is_polytope_empty answers any(b < 0); reduce_polytope raises for any(b < 0) (for its
+    own rows and for the context's) and otherwise returns no rows at all."""
+    prog = ctx.prog
+
+    def shape_is(v, mat: str, idx: int) -> bool:
+        return isinstance(v, tuple) and v and v[0] in ("item", "sub") and isinstance(v[1], tuple) and v[1][0] == "attr" and v[1][2] == "shape" and v[1][1] == ("param", mat) and (v[2] == idx or v[2] == const(idx))
+
+    def scen_for(mat: str, others_have_columns: bool = False):
+        def scen(v):
+            if shape_is(v, mat, 1):
+                return const(0)
+            if isinstance(v, tuple) and v and v[0] == "bin" and v[1] == "Mult" and any(shape_is(o, mat, 1) or o == const(0) for o in (v[2], v[3])):
+                return const(0)
+            if isinstance(v, tuple) and v and v[0] == "cmp" and v[1] in ("Eq", "NotEq", "Gt") and v[3] == const(0):
+                x = v[2]
+                if shape_is(x, mat, 0) or (isinstance(x, tuple) and x[0] == "call" and x[1] == "len" and x[2] and x[2][0] == ("param", mat)):
+                    return const(v[1] != "Eq")
+            return None
+
+        return scen
+
+    # is_polytope_empty
+    key = PTL + "is_polytope_empty"
+    fi = prog.func(key)
+    construct = "is_polytope_empty: rows without columns are empty exactly when some bound is negative"
+    verdict = None
+    n = 0
+    for p in Sim(prog, fi, assume=status_assume(None, scen_for("a")), loop_iters=(0, 1)).paths():
+        if p.terminal != "return" or p.calls("linprog"):
+            continue
+        n += 1
+        okv, why = _any_negative(p.value, "b")
+        if okv is False:
+            verdict = ("violation", "answers with `%s`: %s, but 0 <= b fails exactly for b < 0" % (show(p.value, 5), why))
+        elif okv is None and verdict is None:
+            verdict = ("undecided", "answers with %s" % show(p.value, 5))
+    if verdict is None and n:
+        ctx.ok(rule, key, construct)
+    elif verdict is None:
+        ctx.cannot_decide(rule, key, construct, "no path decides rows without columns before the LP")
+    elif verdict[0] == "violation":
+        ctx.violation(rule, key, construct, verdict[1], where=fi.where)
+    else:
+        ctx.cannot_decide(rule, key, construct, verdict[1])
+    # no rows at all: nothing is required, the set is not empty - and the one-dimensional `np.array([])` the conversion
+    # produces for an empty list must not reach `a.shape` unpacking or the solver
+    construct = "is_polytope_empty: a system without rows is not empty"
+
+    def norows(v):
+        if isinstance(v, tuple) and v and v[0] == "cmp" and v[1] in ("Eq", "NotEq", "Gt") and v[3] == const(0):
+            x = v[2]
+            if shape_is(x, "a", 0) or (isinstance(x, tuple) and x[0] == "call" and x[1] == "len" and x[2] and x[2][0] == ("param", "a")):
+                return const(v[1] == "Eq")
+        if isinstance(v, tuple) and v and v[0] == "un" and v[1] == "Not" and isinstance(v[2], tuple) and v[2][:2] == ("call", "len") and v[2][2] and v[2][2][0] == ("param", "a"):
+            return const(True)
+        return None
+
+    ps = Sim(prog, fi, assume=status_assume(None, norows), loop_iters=(0, 1)).paths()
+    bad = None
+    for p in ps:
+        unpack = any(e["kind"] == "call" and False for e in p.events)
+        reads_shape = any(mentions(e.get("test"), lambda y: isinstance(y, tuple) and len(y) == 3 and y[0] == "attr" and y[2] == "shape" and y[1] == ("param", "a")) for e in p.events if e["kind"] == "branch")
+        _ = unpack
+        if p.calls("linprog") or reads_shape:
+            bad = "with no rows the function goes on to %s (the empty list is converted to a one-dimensional array: unpacking its shape, or handing it to the solver, fails)" % ("the solver" if p.calls("linprog") else "tests on a.shape")
+        elif p.terminal == "return" and p.value != const(False):
+            bad = "with no rows the answer is %s" % show(p.value, 3)
+        elif p.terminal != "return":
+            bad = "with no rows the function raises %s" % p.exc_cls
+    if bad:
+        ctx.violation(rule, key, construct, bad, where=fi.where)
+    elif ps:
+        ctx.ok(rule, key, construct)
+    else:
+        ctx.cannot_decide(rule, key, construct, "no path")
+    # reduce_polytope: own rows, then the context's rows
+    key = PTL + "reduce_polytope"
+    fi = prog.func(key)
+    for mat, vec, what in (("a", "b", "its own rows"), ("a_help", "b_help", "the context's rows")):
+        construct = "reduce_polytope: %s without columns make the system unsatisfiable exactly when some bound is negative" % what
+        verdict = None
+        n = 0
+        for p in Sim(prog, fi, assume=status_assume(None, scen_for(mat)), loop_iters=(0, 1)).paths():
+            tests = [(e["test"], e["taken"]) for e in p.events if e["kind"] == "branch" and mentions(e["test"], lambda y, vec=vec: y == ("param", vec))]
+            for t, taken in tests:
+                neg = False
+                while isinstance(t, tuple) and t and t[0] == "un" and t[1] == "Not":
+                    t, neg = t[2], not neg
+                okv, why = _any_negative(t, vec)
+                n += 1
+                if okv is False:
+                    verdict = ("violation", "%s (`%s`), but 0 <= b fails exactly for b < 0" % (why, show(t, 5)))
+                elif okv is True:
+                    found_negative = bool(taken) != neg
+                    if found_negative and not (p.terminal == "raise" and _exc_sub(prog, p.exc_cls, "ValueError")):
+                        verdict = verdict or ("violation", "a negative bound on a row without columns ends in %s, not in ValueError" % outcome(p))
+                    if not found_negative and mat == "a" and p.terminal == "return" and not p.calls("linprog"):
+                        v = p.value
+                        items = v[1] if isinstance(v, tuple) and v and v[0] == "tuple" else ()
+
+                        def empty(x) -> bool:
+                            return isinstance(x, tuple) and x and x[0] == "sub" and isinstance(x[2], tuple) and x[2][0] == "slice" and x[2][1] is None and x[2][2] == const(0)
+
+                        if len(items) == 2 and not all(empty(x) for x in items):
+                            verdict = verdict or ("violation", "rows 0 <= b with b >= 0 say nothing, yet %s is returned (both the matrix and the vector have to come back without rows)" % show(v, 4))
+        if verdict is None and n:
+            ctx.ok(rule, key, construct)
+        elif verdict is None:
+            ctx.cannot_decide(rule, key, construct, "no test of %s was found on the paths without columns" % vec)
+        elif verdict[0] == "violation":
+            ctx.violation(rule, key, construct, verdict[1], where=fi.where)
+        else:
+            ctx.cannot_decide(rule, key, construct, verdict[1])
 
 
 def rule_lp_emptiness_shortcuts(ctx: Ctx, rule: str = "lp-shortcut") -> None:
